@@ -2,6 +2,7 @@ import RosuModel.Lemmas.GradualOsu
 import RosuModel.Lemmas.GradualCatch
 import RosuModel.Lemmas.GradualMania
 import RosuModel.Lemmas.GradualTaiko
+import RosuModel.Gen.GradualCtor
 
 /-!
 # C02 — gradual difficulty equals difficulty of the played prefix
@@ -299,5 +300,54 @@ example :
       [1, 2, 3, 4].map (fun i => Res.some (taikoOneShot unitSkills' objs i)) ∧
     (taikoOneShot unitSkills' objs 4) = (taikoOneShot unitSkills' objs 1000) := by
   decide
+
+/-! ## The gradual constructors prepare the map like the one-shot calculation (generated)
+
+`Gen/GradualCtor.lean` is re-extracted from src/<mode>/difficulty/{mod,gradual}.rs on every run
+(receiver spelling and accessor aliases canonicalised). -/
+
+section Ctor
+open Rosu.Gen.GradualCtor
+
+/-- Every shape met by the extractor was understood. -/
+theorem gradual_ctor_shapes_understood : ctorUnknown = [] := by decide
+
+/-- **`…GradualDifficulty::new` applies the same conversion and the same mods as `difficulty()`**:
+`convert_ref` to the same mode with the mods of the same `Difficulty`, then the same
+mod-dependent map rewrites (`HoldOff`, `Invert`, `Random` for mania, `Random` for taiko) under the
+same conditions in the same order — for all four modes. -/
+theorem gradual_applies_same_mods_as_difficulty :
+    ∀ mode ∈ ["Osu", "Taiko", "Catch", "Mania"],
+      (prepSteps.lookup mode).isSome ∧
+      (prepSteps.filter (fun r => r.1 == mode && r.2.1 == "oneshot")).map (·.2.2) =
+        (prepSteps.filter (fun r => r.1 == mode && r.2.1 == "gradual")).map (·.2.2) ∧
+      ((prepSteps.filter (fun r => r.1 == mode)).map (·.2.1)) = ["oneshot", "gradual"] := by decide
+
+/-- Ways in which a path consults its `Difficulty`, minus the object limit (`passed_objects`: a
+gradual calculator counts objects itself — that is what the theorems above are about) and minus
+the plumbing (`DifficultyValues::calculate(difficulty, …)` / storing the value in `Self { … }`). -/
+def settingsOf (mode path : String) : List String :=
+  ((settingChains.filter (fun r => r.1 == mode && r.2.1 == path)).flatMap (·.2.2)).filter
+    (fun c => c != "get_passed_objects()" && c != "pass:DifficultyValues::calculate" && c != "pass:Self{}")
+
+/-- **The gradual calculators read their settings from the same sources as the one-shot
+calculation**: in every mode the code of gradual.rs consults the `Difficulty` through exactly the
+accessor chains (`get_clock_rate()`, `get_hardrock_offsets()`, `get_mods().reflection()`,
+`get_mods().random_seed()`, …) and shared helpers that `difficulty()` + `DifficultyValues::calculate`
+use — e.g. catch's hard-rock offsets come from `get_hardrock_offsets()` (the `Difficulty` override)
+on both paths, the clock rate from `get_clock_rate()` on both paths. -/
+theorem gradual_reads_same_settings :
+    ∀ mode ∈ ["Osu", "Taiko", "Catch", "Mania"],
+      settingsOf mode "gradual" = settingsOf mode "oneshot" ∧ settingsOf mode "oneshot" ≠ [] := by decide
+
+/-- No code of a mode asks the mods directly for the clock rate or the hard-rock offsets: both have
+an override in `Difficulty`, reachable only through `get_clock_rate()` / `get_hardrock_offsets()`. -/
+theorem no_override_bypass : overrideBypass = [] := by decide
+
+/-- Non-vacuity: catch reads the hard-rock offsets and the reflection on both paths. -/
+example : "get_hardrock_offsets()" ∈ settingsOf "Catch" "gradual" ∧
+    "get_mods().reflection()" ∈ settingsOf "Catch" "oneshot" := by decide
+
+end Ctor
 
 end Rosu.Gradual
